@@ -205,7 +205,10 @@ def pickle_roundtrip(sym, kind, N, reps=None):
         petl.topickle([hdr] + rows, src, write_header=write_header)
         extra = []
         for a in range(nappend):
-            more = [[TYPED[(a + 3) % len(TYPED)], 'app%d' % a]]
+            shared = 'app%d' % a
+            # two appended rows holding the very same cell objects (a pickler that keeps a memo across rows emits
+            # back-references for them; a reader has to resolve those within the appended part)
+            more = [[TYPED[(a + 3) % len(TYPED)], shared], [TYPED[(a + 3) % len(TYPED)], shared]]
             petl.appendpickle([hdr] + more, src)
             extra += more
         back = list(petl.frompickle(_reader(src)))
